@@ -261,7 +261,7 @@ def rel_c06(cl, tl, rel, ra, rb):
             return ("viol", "result changes when %s is switched" % rel)
         return None
     c = core.parse_case_head(cl)
-    if c["maxExpr"] != 0 or not pure_domain(cl) or (c["l"] and " 1 1 " in cl):
+    if c["maxExpr"] != 0 or not pure_domain(cl):
         return None
     a = (ra["kind"], repr(ra["val"]), len(ra["errs"]) == 0, block_errs(ra["errs"]))
     b = (rb["kind"], repr(rb["val"]), len(rb["errs"]) == 0, block_errs(rb["errs"]))
@@ -430,4 +430,17 @@ def rel_c08(cl, tl, rel, ra, rb):
         return ("viol", "left-recursive parser %s, its iteration %s" % ("matches" if sa else "fails", "matches" if sb else "fails"))
     if sa and ra["off"] != rb["off"]:
         return ("viol", "left-recursive parser consumes %d bytes, its iteration %d" % (ra["off"], rb["off"]))
+    return None
+
+
+def twins_c16_memo(cl, c):
+    """the budget must hold 'with Memoize on and off': every budgeted non-optimized case is also run memoized"""
+    if c["o"] or c["memoize"] or c["maxExpr"] == 0:
+        return []
+    t = cl.split(" ")
+    t[6] = "1"
+    return [(twin_id(" ".join(t), 3), "memoized-budget")]
+
+
+def rel_none(cl, tl, rel, ra, rb):
     return None
